@@ -73,7 +73,17 @@ let rec parse_all (w : n list) (acc : (int * string) list) : (int * string) list
   | Some (((code, _), body), rest) -> parse_all rest ((int_of_n code, string_of_bytes body) :: acc)
   | None -> (List.rev acc, w)
 
-let oracle (prefix_d5 : bool) (impl_line : string) : string =
+(* the longest run of script bytes without a CRLFCRLF in it: a 431 (head too long) can only be
+   justified when some head does not fit the 8 KiB buffer *)
+let max_gap (data : int list) : int =
+  let rec go l run best st = match l with
+    | [] -> max run best
+    | b :: t ->
+      let st' = (match st, b with 0, 13 -> 1 | 1, 10 -> 2 | 2, 13 -> 3 | 3, 10 -> 4 | _, 13 -> 1 | _ -> 0) in
+      if st' = 4 then go t 0 (max (run + 1) best) 0 else go t (run + 1) best st' in
+  go data 0 0 0
+
+let oracle (script : int list) (impl_line : string) : string =
   let toks = split_ws impl_line in
   match toks with "panic" :: _ -> "oracle=fail@panic" | _ ->
   match field "log=[" toks, field "wire=" toks, field "files=" toks with
@@ -158,6 +168,7 @@ let oracle (prefix_d5 : bool) (impl_line : string) : string =
             (match is_prefix expected finals with
              | None -> "oracle=fail@responses-differ-from-handler-answers"
              | Some [] -> if files = "0" then "oracle=ok" else "oracle=fail@temp-file-left"
+             | Some [(431, _)] when max_gap script <= 8192 -> "oracle=fail@431-for-a-head-that-fits"
              | Some [(c, _)] when List.mem c [400; 413; 431; 500; 505] -> if files = "0" then "oracle=ok" else "oracle=fail@temp-file-left"
              | Some _ -> "oracle=fail@extra-responses")
           end
@@ -239,7 +250,7 @@ let () =
         else Printf.sprintf "%d:h%016Lx" (List.length wire) (fnv64_ints wire) in
       Printf.printf "log=[%s] wire=%s files=0%s | %s\n" log wstr
         (if out.lo_out_of_fuel then " OUT-OF-FUEL" else "")
-        (let v = oracle false impl_line in
+        (let v = oracle (List.map int_of_n data) impl_line in
          match ann, v with
          | Some [s; m; l; decl; kind; bodytok], "oracle=ok" ->
            oracle_c09 s m (int_of_string l) (decl = "1") kind cache (digest_tok_ints (expand_bytes_ints bodytok)) impl_line
